@@ -61,6 +61,7 @@ type obs struct {
 type caseRun struct {
 	Obs      []obs
 	Stored   []*dns.Msg
+	SharedOpt bool // two query contexts (or a query and a reply OPT) use one backing array for their option lists
 	BuildErr error
 	Panic    string
 	Horizon  bool
@@ -105,6 +106,7 @@ func runCase(c Case) caseRun {
 		for _, m := range env.StoredInCaches() {
 			cr.Stored = append(cr.Stored, m.Copy())
 		}
+		cr.SharedOpt = env.Probe.SharedOptArray()
 	})
 	cr.Panic = x.Panic
 	cr.Horizon = x.HorizonHit || x.Livelock
@@ -314,6 +316,9 @@ func evalCase(c Case) (caseRun, []verdict) {
 	var vd []verdict
 	for _, o := range cr.Obs {
 		vd = append(vd, judge(c, o))
+	}
+	if cr.SharedOpt {
+		vd = append(vd, verdict{Kind: "context", Clause: "opt-array-shared", Desc: "the option lists of two OPT records of different queries (or of a query and its reply) share one backing array: an option appended for one query is written into the other's"})
 	}
 	// cached answers never contain an OPT
 	for _, m := range cr.Stored {
